@@ -225,6 +225,17 @@ def norm(x):
         x = dict(x)
         x["store"] = sorted(x["store"])
         x.pop("pre", None)
+    if isinstance(x, dict) and isinstance(x.get("tags"), list):     # a dictionary: the property fixes no order of the tags
+        x = dict(x)
+        x["tags"] = sorted(x["tags"], key=lambda kv: kv[0])
+    if isinstance(x, dict) and isinstance(x.get("dir"), list):      # a directory: name -> content (first binding wins), no order
+        x = dict(x)
+        seen = {}
+        for k, c in x["dir"]:
+            seen.setdefault(k, c)
+        x["dir"] = sorted([k, c] for k, c in seen.items())
+        if isinstance(x.get("gen2"), dict):
+            x["gen2"] = norm(x["gen2"])
     if isinstance(x, dict) and isinstance(x.get("log"), list):
         x = dict(x)
         x["log"] = canon_log(x["log"], x.get("attrs"))
